@@ -70,7 +70,7 @@ fn opt_op(ctx: &mut Ctx, name: &str, got: Result<Option<Vec<u8>>, crate::monitor
     }
 }
 
-fn one_step(ctx: &mut Ctx, rng: &mut Rng, pool: &[Live]) -> (String, StepOut) {
+fn one_step(ctx: &mut Ctx, rng: &mut Rng, pool: &[Live], shared: &mut (Vec<u8>, Vec<u64>)) -> (String, StepOut) {
     let x = rng.pick(pool);
     let y = rng.pick(pool);
     let (a, b) = (&x.bytes, &y.bytes);
@@ -257,7 +257,31 @@ fn one_step(ctx: &mut Ctx, rng: &mut Rng, pool: &[Live]) -> (String, StepOut) {
             };
             let text = refpath::render(&p, &refpath::PLAIN, rng);
             let info = || format!("{} path={:?} on {}", opname, text, ta.show());
-            match (select(text.as_bytes(), a, mode), refpath::eval(&p, ta)) {
+            // results are appended to buffers that still hold the results of earlier steps of
+            // this chain (what a caller collecting rows does); the new items are what lies behind
+            // the old end
+            if shared.0.len() > 1 << 20 {
+                shared.0.clear();
+                shared.1.clear();
+            }
+            let (d0, o0) = (shared.0.len(), shared.1.len());
+            let sel = match select_into(text.as_bytes(), a, mode, &mut shared.0, &mut shared.1) {
+                Sel::Ok(_) => {
+                    if shared.0.len() < d0 || shared.1.len() < o0 || shared.1[o0..].iter().any(|x| (*x as usize) < d0) {
+                        ctx.violation(&format!("{}/shared-buffer-not-appended", opname), || format!("data {} -> {} bytes, offsets {} -> {} entries ; {}", d0, shared.0.len(), o0, shared.1.len(), info()));
+                        shared.0.clear();
+                        shared.1.clear();
+                        return (opname.to_string(), StepOut::Nothing);
+                    }
+                    Sel::Ok(Selected { data: shared.0[d0..].to_vec(), offsets: shared.1[o0..].iter().map(|x| x - d0 as u64).collect() })
+                }
+                other => {
+                    shared.0.truncate(d0);
+                    shared.1.truncate(o0);
+                    other
+                }
+            };
+            match (sel, refpath::eval(&p, ta)) {
                 (Sel::Panic(pn), _) => {
                     ctx.panic_violation(opname, &pn, &info);
                     StepOut::Nothing
@@ -322,10 +346,25 @@ pub fn run(ctx: &mut Ctx) {
             let t = gen::big_doc(&mut rng, false);
             pool.push(Live { bytes: refcodec::encode(&t), tree: t });
         }
+        if ctx.case_no % 13 == 2 && !ctx.miri {
+            // two wide objects over the same key set (more members than small-sort shortcuts cover)
+            let n = 17 + rng.below(60);
+            for _ in 0..2 {
+                let mut members = Vec::new();
+                for k in 0..n {
+                    if rng.chance(4, 5) {
+                        members.push((format!("k{:02}", k), gen::scalar(&mut rng, false)));
+                    }
+                }
+                let t = Tree::obj_from(members);
+                pool.push(Live { bytes: refcodec::encode(&t), tree: t });
+            }
+        }
+        let mut shared: (Vec<u8>, Vec<u64>) = (Vec::new(), Vec::new());
         let steps = rng.below(46) + 5;
         let mut history: Vec<String> = Vec::new();
         for step in 0..steps {
-            let (opname, out) = one_step(ctx, &mut rng, &pool);
+            let (opname, out) = one_step(ctx, &mut rng, &pool, &mut shared);
             ctx.count(&format!("op.{}", opname));
             ctx.count("steps");
             ctx.evals += 1;
